@@ -281,6 +281,102 @@ K! { #[kani::unwind(20)] fn c11_push_tendril_other_buffer() { push_tendril_other
 K! { #[kani::unwind(20)] fn c12_clear_clone_drop() { clear_clone_drop::<12>() } }
 K! { #[kani::unwind(20)] fn c12_reserve_clone_drop() { reserve_clone_drop() } }
 
+// ---- WTF-8: a lead surrogate at the end of the tendril and a trail surrogate at the start of the pushed bytes are rejoined ----
+// into one 4-byte character (`Fixup` with drop_left = drop_right = 3, insert_len = 4): the only format with a non-trivial fixup.
+fn wtf8_join<const L: usize, const R: usize>() {
+    use tendril::fmt::WTF8;
+    use tendril::Tendril;
+    let a = bytes::<L>();
+    let r = bytes::<R>();
+    let mut i = 0;
+    while i < L {
+        assume(a[i] < 0x80);
+        i += 1;
+    }
+    i = 0;
+    while i < R {
+        assume(r[i] < 0x80);
+        i += 1;
+    }
+    let h1: u8 = any();
+    let h2: u8 = any();
+    let l1: u8 = any();
+    let l2: u8 = any();
+    assume(h1 >= 0xA0 && h1 <= 0xAF && h2 >= 0x80 && h2 <= 0xBF); // ED A0..AF xx = U+D800..DBFF
+    assume(l1 >= 0xB0 && l1 <= 0xBF && l2 >= 0x80 && l2 <= 0xBF); // ED B0..BF xx = U+DC00..DFFF
+    let mut lhs = Reg::of(&a);
+    lhs.push(0xED);
+    lhs.push(h1);
+    lhs.push(h2);
+    let mut lv = [0u8; 16];
+    let mut rv = [0u8; 16];
+    i = 0;
+    while i < L {
+        lv[i] = a[i];
+        i += 1;
+    }
+    lv[L] = 0xED;
+    lv[L + 1] = h1;
+    lv[L + 2] = h2;
+    rv[0] = 0xED;
+    rv[1] = l1;
+    rv[2] = l2;
+    i = 0;
+    while i < R {
+        rv[3 + i] = r[i];
+        i += 1;
+    }
+    // (the unvalidated constructors are used: validation of the symbolic filler is what kept CBMC's symbolic execution from
+    // finishing in 10 min; both byte strings are well-formed WTF-8 by construction, and the fix-up under test is the same code)
+    let mut t: Tendril<WTF8> = unsafe { Tendril::from_byte_slice_without_validating(&lv[..L + 3]) };
+    let keep = t.clone();
+    unsafe { t.push_bytes_without_validating(&rv[..R + 3]) };
+    let hi = (((h1 & 0x0F) as u32) << 6) | (h2 & 0x3F) as u32;
+    let lo = (((l1 & 0x0F) as u32) << 6) | (l2 & 0x3F) as u32;
+    let n = 0x10000 + (hi << 10) + lo;
+    let mut want = Reg::of(&a);
+    want.push(0xF0 | (n >> 18) as u8);
+    want.push(0x80 | ((n >> 12) & 0x3F) as u8);
+    want.push(0x80 | ((n >> 6) & 0x3F) as u8);
+    want.push(0x80 | (n & 0x3F) as u8);
+    i = 0;
+    while i < R {
+        want.push(r[i]);
+        i += 1;
+    }
+    assert!(t.len32() as usize == L + 4 + R, "rejoined surrogate pair has the wrong length");
+    assert!(Reg::of(&t.as_bytes()[..]) == want, "surrogate pair rejoined into the wrong bytes");
+    assert!(Reg::of(&keep.as_bytes()[..]) == lhs, "clone changed when a surrogate pair was rejoined in the original");
+    kcover!(true, "reachable");
+}
+K! { #[kani::unwind(36)] fn c11_wtf8_join_inline() { wtf8_join::<1, 0>() } }
+// (wtf8_join::<8, 2>, an 11-byte heap receiver: CBMC ran out of memory at 20 GB on the two unwinding assertions of futf::classify - not registered)
+K! { #[kani::unwind(18)] fn c11_wtf8_join_grow() { wtf8_join::<5, 0>() } }
+
+// ---- push_tendril between two shared tendrils of DIFFERENT heap buffers where `other` starts at the offset at which `self`
+// ends in its own buffer (the zero-copy merge must not be taken: the bytes live in another allocation) -------------------------
+fn push_tendril_lined_up<const P: usize, const L2: usize>() {
+    let add = bytes::<P>();
+    let s2 = bytes::<L2>();
+    let mut t1 = ByteTendril::with_capacity(16);
+    t1.push_slice(&add);
+    let mut a = t1.clone(); // shared, offset 0, ends at P in its buffer
+    let t2 = ByteTendril::from_slice(&s2);
+    let b = t2.subtendril(P as u32, (L2 - P) as u32); // shared, offset P in ANOTHER buffer
+    a.push_tendril(&b);
+    assert!(a.len32() as usize == L2, "push_tendril: wrong length");
+    assert!(a[0] == add[0] && a[P - 1] == add[P - 1], "push_tendril lost the receiver's bytes");
+    assert!(a[P] == s2[P] && a[L2 - 1] == s2[L2 - 1], "push_tendril produced bytes that are not the argument's");
+    assert!(t1[0] == add[0] && t1.len32() as usize == P, "push_tendril onto a clone changed the original");
+    kcover!(true, "reachable");
+    core::mem::forget(a);
+    core::mem::forget(b);
+    core::mem::forget(t1);
+    core::mem::forget(t2);
+}
+// (measured: CBMC out of memory at 30 GB during propositional reduction - kept for reference, not registered in run.py)
+K! { #[kani::unwind(20)] fn c11_push_tendril_lined_up() { push_tendril_lined_up::<3, 12>() } }
+
 pub const TABLE: &[(&str, fn())] = &[
     ("c11_clone_push_inline", c11_clone_push_inline),
     ("c11_clone_push_grow", c11_clone_push_grow),
@@ -308,4 +404,7 @@ pub const TABLE: &[(&str, fn())] = &[
     ("c11_push_tendril_other_buffer", c11_push_tendril_other_buffer),
     ("c12_clear_clone_drop", c12_clear_clone_drop),
     ("c12_reserve_clone_drop", c12_reserve_clone_drop),
+    ("c11_push_tendril_lined_up", c11_push_tendril_lined_up),
+    ("c11_wtf8_join_inline", c11_wtf8_join_inline),
+    ("c11_wtf8_join_grow", c11_wtf8_join_grow),
 ];
